@@ -90,6 +90,16 @@ def exporter(kind):
 	in names / descriptions, so anything an exporter remembers from an earlier export (a per-instance cache) shows as stale output."""
 	from gambit.results import CSVResultsExporter, JSONResultsExporter, ResultsArchiveWriter
 	if kind not in _EXPORTERS:
+		if kind == 'csv' and 'other-csv' not in _EXPORTERS:
+			# somebody else in the process made exporters with OTHER format options before (tab-separated, other quoting, a dialect) and, for
+			# JSON, other keyword options: the default exporters made afterwards must still write the default format
+			import csv as _csv
+			import io as _io
+			_EXPORTERS['other-csv'] = [CSVResultsExporter(delimiter='\t', quoting=_csv.QUOTE_ALL), CSVResultsExporter(dialect='excel-tab'), CSVResultsExporter(delimiter=';', quotechar="'", lineterminator='\r\n')]
+			try:
+				_EXPORTERS['other-json'] = [JSONResultsExporter(pretty=True)]
+			except TypeError:
+				_EXPORTERS['other-json'] = []
 		_EXPORTERS[kind] = {'csv': CSVResultsExporter, 'json': JSONResultsExporter, 'archive': ResultsArchiveWriter}[kind]()
 	return _EXPORTERS[kind]
 
